@@ -337,14 +337,34 @@ func genBigFamily(r *plan.Rng, quick bool) plan.StreamFamily {
 			f.T = t
 			doc = append(doc, `{"unknown_member_`...)
 			doc = append(doc, longString(L/2, false)[1:]...)
-			doc = append(doc, `:[`...)
-			for i := 0; len(doc) < L; i++ {
-				if i > 0 {
-					doc = append(doc, ',')
+			if r.Bool() {
+				doc = append(doc, `:[`...)
+				for i := 0; len(doc) < L; i++ {
+					if i > 0 {
+						doc = append(doc, ',')
+					}
+					doc = append(doc, elem(i)...)
 				}
-				doc = append(doc, elem(i)...)
+				doc = append(doc, `]`...)
+			} else {
+				// an object with thousands of members that are themselves small
+				// arrays and objects (skipObject / skipArray bookkeeping)
+				doc = append(doc, `:{`...)
+				for i := 0; len(doc) < L; i++ {
+					if i > 0 {
+						doc = append(doc, ',')
+					}
+					switch i % 3 {
+					case 0:
+						doc = append(doc, fmt.Sprintf(`"m%d":[[],[%d],[]]`, i, i)...)
+					case 1:
+						doc = append(doc, fmt.Sprintf(`"m%d":{"a":[],"b":{}}`, i)...)
+					default:
+						doc = append(doc, fmt.Sprintf(`"m%d":[[%d],{"x":[1,2]}]`, i, i)...)
+					}
+				}
+				doc = append(doc, `}`...)
 			}
-			doc = append(doc, `]`...)
 			if len(inner) > 2 {
 				doc = append(doc, ',')
 			}
